@@ -166,7 +166,7 @@ const externalHook = `
 // VerifChoose is set by the verification harness (nil: canonical sorted order, no choices).
 var VerifChoose func(n int, label string) int
 
-func verifMapKeys_[M ~map[K]V, K comparable, V any](m M) []K {
+func verifMapKeys_[M ~map[K]V, K comparable, V any](m M, site string) []K {
 	keys := make([]K, 0, len(m))
 	for k := range m {
 		keys = append(keys, k)
@@ -174,7 +174,7 @@ func verifMapKeys_[M ~map[K]V, K comparable, V any](m M) []K {
 	vsort_.SliceStable(keys, func(i, j int) bool { return vfmt_.Sprintf("%#v", keys[i]) < vfmt_.Sprintf("%#v", keys[j]) })
 	if VerifChoose != nil && len(keys) > 1 {
 		for i := 0; i < len(keys)-1; i++ {
-			j := VerifChoose(len(keys)-i, "maprange")
+			j := VerifChoose(len(keys)-i, "maprange@"+site)
 			if j != 0 {
 				k := keys[i+j]
 				copy(keys[i+1:i+j+1], keys[i:i+j])
@@ -482,11 +482,16 @@ func (r *rewriter) mapRange(x *ast.RangeStmt) ast.Stmt {
 		head = append(head, &ast.AssignStmt{Lhs: []ast.Expr{ast.NewIdent("_")}, Tok: token.ASSIGN, Rhs: []ast.Expr{key}})
 	}
 	body := &ast.BlockStmt{Lbrace: x.Body.Lbrace, List: append(head, x.Body.List...), Rbrace: x.Body.Rbrace}
-	loop := &ast.RangeStmt{For: x.For, Key: ast.NewIdent("_"), Value: key, Tok: tok, X: &ast.CallExpr{Fun: r.mapKeysFun(), Args: []ast.Expr{m}}, Body: body}
+	loop := &ast.RangeStmt{For: x.For, Key: ast.NewIdent("_"), Value: key, Tok: tok, X: &ast.CallExpr{Fun: r.mapKeysFun(), Args: []ast.Expr{m, &ast.BasicLit{Kind: token.STRING, Value: strconv.Quote(r.sitePos(x))}}}, Body: body}
 	if len(pre) == 0 {
 		return loop
 	}
 	return &ast.BlockStmt{List: append(pre, loop)}
+}
+
+func (r *rewriter) sitePos(n ast.Node) string {
+	pos := r.fset.Position(n.Pos())
+	return fmt.Sprintf("%s:%d", filepath.Base(pos.Filename), pos.Line)
 }
 
 func (r *rewriter) mapKeysFun() ast.Expr {
